@@ -246,9 +246,12 @@ pub fn run_case(case: &Case, net: &mut Option<Net>, rep: &mut Report) {
     } else if in_range && sync1_ok {
         rep.hit("in-range");
         if sum >= U64 {
+            // the first pulse time is not a 64-bit time: rejected before any write (fix of c18/start-time-add-overflow)
             rep.hit("ref+delay>=2^64");
-        }
-        if tok == "panic" || tok == "stuck" {
+            if tok != "err:IntegerTypeConversion" || !writes.is_empty() {
+                rep.fail("c18/start-time-add-overflow", &format!("reference time {} + delay {} does not fit in 64 bits but result {tok} / {} writes", case.sys, case.delay, writes.len()), &line);
+            }
+        } else if tok == "panic" || tok == "stuck" {
             let key = if sum >= U64 { "c18/start-time-add-overflow" } else { "c18/configure-panic" };
             rep.fail(key, &format!("configure_dc_sync {tok}s for an in-range configuration (reference time {} + delay {})", case.sys, case.delay), &line);
         } else if tok != "ok" {
@@ -473,7 +476,7 @@ pub fn run(tier: &str, seed: u64, rep: &mut Report) {
         // smallest and largest period, delay, shift
         Case { reference: 0x1000, sys: 0, delay: 0, period: 1, shift: 0, devs: one.clone(), times: vec![0, 1, m] },
         Case { reference: 0x1000, sys: m - 0xffff_ffff, delay: 0xffff_ffff, period: 0xffff_ffff, shift: 0xffff_ffff, devs: one.clone(), times: vec![0, 0xffff_fffe, 0xffff_ffff, m] },
-        // reference time + delay = 2^64: the first sum that does not fit (witness of c18/start-time-add-overflow)
+        // reference time + delay = 2^64: the first sum that does not fit (former witnesses of c18/start-time-add-overflow: now rejected)
         Case { reference: 0x1000, sys: m, delay: 1, period: 1000, shift: 0, devs: one.clone(), times: vec![5] },
         Case { reference: 0x1000, sys: m, delay: 3, period: 1000, shift: 0, devs: all.clone(), times: vec![] },
         // range errors, no reference
